@@ -348,6 +348,29 @@ class MeaningStream(Stream):
             yield {'lp': lp, 'layout': layout, 'policy': p, 'probes': probes, 'rxtable': table,
                    'version': rng.choice(['4.0.9', '4.2.1'])}
 
+    def corpus(self):
+        # Eq / NotEq created from a tuple are stored with the tuple ({"py/tuple": [...]}); after the upgrade the rule read
+        # from the document must still hold for the equal LIST an inquiry carries (documents are restored without
+        # running any constructor)
+        out = []
+        table = [['[A-Z][a-z]+', ['cat', ['cls', False, [[65, 90]]], ['plus', ['cls', False, [[97, 122]]]]]],
+                 ['b.+', ['cat', ['chr', 98], ['plus', ['dot']]]],
+                 ['get|put', ['alt', gen.rx_of_literal('get'), gen.rx_of_literal('put')]]]
+        for name in ('Eq', 'NotEq'):
+            for eff in ('allow', 'deny'):
+                lp = {'uid': 'u1', 'description': 'text', 'effect': eff, 'subjects': ['<[A-Z][a-z]+>'],
+                      'resources': ['<b.+>'], 'actions': ['<get|put>'],
+                      'rules': [['k', [name, {'T': ['admin', 'dev']}]]], 'type': 1}
+                p = {'uid': 'u1', 'effect': eff, 'subjects': [['s', '<[A-Z][a-z]+>']], 'resources': [['s', '<b.+>']],
+                     'actions': [['s', '<get|put>']], 'context': [['k', [name, {'T': ['admin', 'dev']}]]],
+                     'description': 'text', 'tags': ['<', '>']}
+                probes = [{'subject': 'Max', 'resource': 'book', 'action': 'get', 'context': {'D': [['k', v]]}}
+                          for v in (['admin', 'dev'], {'T': ['admin', 'dev']}, ['admin'], 'other')]
+                for ver in ('4.0.9', '4.2.1'):
+                    out.append({'lp': lp, 'layout': '1.2.0', 'policy': p, 'probes': probes, 'rxtable': table,
+                                'version': ver})
+        return out
+
     def emit(self, c):
         return '{| pc_table := %s; pc_pol := %s; pc_probes := %s |}' % (
             guardlib.e_table(c['rxtable']), specs.e_policy(c['policy']),
